@@ -39,6 +39,10 @@ REQUESTS = {
     "V8": (["compute_tip_position", "smooth_height"], {}, False),
     "V9": (["compute_tip_position", "correct_split_approach_retract",
             "smooth_height"], {}, False),
+    # smoothing before the segments are determined (the turning point is
+    # then found on other data than in V9) and again afterwards
+    "V10": (["compute_tip_position", "smooth_height",
+             "correct_split_approach_retract", "smooth_height"], {}, False),
     "I1": (["compute_tip_position", "nope"], {}, True),
     "I2": (["correct_tip_offset"], {}, True),
     "I3": (P1, {"correct_tip_offset": {"method": "bogus"}}, True),
@@ -293,7 +297,7 @@ class Recorded(Driver):
 
     def __init__(self):
         super().__init__()
-        keep = ("V2", "V3", "V5", "V7", "V8", "I1", "I3", "I5")
+        keep = ("V2", "V3", "V5", "V7", "V8", "V9", "V10", "I1", "I3", "I5")
         self.ops = [o for o in self.ops
                     if (o[0] == "P" and o[4] in keep and not o[3])
                     or (o[0] == "F" and (o[2] in keep or o[2] is None)
